@@ -29,6 +29,7 @@ func init() {
 			{ID: "R01.2", Template: "T-EXHAUST", Text: "every operation kind has an execution arm or a listed reason to rely on the default", Min: 150},
 			{ID: "R01.3", Template: "T-EXHAUST", Text: "every emittable SSA opcode has table entries and an arm in both backends", Min: 400},
 			{ID: "R01.5", Template: "T-REPR", Text: "32-bit tagged arms push zero-extended values", Min: 25},
+			{ID: "R01.16", Template: "T-CONSULT", Text: "interpreter: a frame re-used for a tail call records the callee", Min: 1},
 			{ID: "R01.6", Template: "T-MUSTPASS", Text: "indirect call emissions are preceded by the caller-module-context store", Min: 6},
 			{ID: "R01.7", Template: "T-REPR", Text: "amd64 and→TEST fusion matches the zero on the right-hand side only", Min: 2},
 			{ID: "R01.9", Template: "T-SIBLING", Text: "both engines test alignment and bounds of an atomic access in the same order (known finding: they do not)", Min: 1},
@@ -42,6 +43,7 @@ func init() {
 		},
 		Run: runC01,
 		Controls: []core.Control{
+			{Name: "tail-call-frame-keeps-old-function", File: "internal/engine/interpreter/interpreter.go", Old: "\tframe.f = f\n\tframe.base = len(ce.stack)\n", New: "\tframe.base = len(ce.stack)\n", Old2: "\tbody = frame.f.parent.body\n\tbodyLen = uint64(len(body))\n\treturn body, bodyLen\n", New2: "\tbody = f.parent.body\n\tbodyLen = uint64(len(body))\n\treturn body, bodyLen\n", Rule: "R01.16", Substr: "re-used"},
 			{Name: "wait-sharedness-tested-first", File: "internal/engine/interpreter/interpreter.go", Old: "\t\t\toffset := ce.popMemoryOffset(op)\n\n\t\t\tswitch unsignedType(op.B1) {\n\t\t\tcase unsignedTypeI32:\n\t\t\t\tif offset%4 != 0 {", New: "\t\t\toffset := ce.popMemoryOffset(op)\n\t\t\tif !memoryInst.Shared {\n\t\t\t\tpanic(wasmruntime.ErrRuntimeExpectedSharedMemory)\n\t\t\t}\n\n\t\t\tswitch unsignedType(op.B1) {\n\t\t\tcase unsignedTypeI32:\n\t\t\t\tif offset%4 != 0 {", Rule: "R01.15", Substr: "wait"},
 			{Name: "eviction-without-store", File: "internal/engine/wazevo/backend/regalloc/regalloc.go", Old: "\t\t\t\t\ta.storeEvicted(f, instr)\n\t\t\t\t\tvs.recordReload(f, blk)", New: "\t\t\t\t\tvs.recordReload(f, blk)", Rule: "R01.12", Substr: "evicted"},
 			{Name: "bitselect-finishes-in-result-register", File: "internal/engine/wazevo/backend/isa/amd64/machine.go", Old: "\tpor.asXmmRmR(sseOpcodePor, newOperandReg(yAndNotC), tmpX)\n\tm.insert(por)\n\n\tm.copyTo(tmpX, rd)", New: "\tm.copyTo(tmpX, rd)\n\tpor.asXmmRmR(sseOpcodePor, newOperandReg(yAndNotC), rd)\n\tm.insert(por)", Rule: "R01.13", Substr: "lowerVbitselect"},
@@ -66,6 +68,7 @@ func init() {
 }
 
 func runC01(c *core.Ctx) {
+	checkReusedFrameNamesCallee(c)
 	checkOpcodeCoverage(c, "R01.1")
 	checkOperationKinds(c)
 	checkSSAOpcodes(c)
